@@ -6,6 +6,7 @@ package c11
 import (
 	"encoding/json"
 	"fmt"
+	"os"
 	"sort"
 	"strings"
 	"time"
@@ -27,7 +28,7 @@ type Case struct {
 	Identical   bool `json:"identical,omitempty"`
 	ExpectReuse bool `json:"expect_reuse,omitempty"`
 	// Script is the map iteration order script B ran under (violations of "reuse happens").
-	Script []uint8 `json:"map_order_script,omitempty"`
+	Script []int `json:"map_order_script,omitempty"`
 	// Maps: entry counts of the maps whose iteration order could reach a cache key.
 	Maps map[string]int `json:"order_exposed_maps,omitempty"`
 }
@@ -70,7 +71,15 @@ func Check() *engine.Check {
 
 // ---------------------------------------------------------------------------
 
+var debug = os.Getenv("VERIF_C11_DEBUG") != ""
+
+type sigAcc struct {
+	first verdict
+	n     int64
+}
+
 type runner struct {
+	viol map[string]*sigAcc
 	c    *engine.Ctx
 	tr   *env.Transport
 	b    *builder
@@ -80,7 +89,43 @@ type runner struct {
 func newRunner(c *engine.Ctx) *runner {
 	env.SetNow(env.T0)
 
-	return &runner{c: c, tr: newRemote(), b: newBuilder(), deps: map[string]map[string]bool{}}
+	return &runner{c: c, tr: newRemote(), b: newBuilder(), deps: map[string]map[string]bool{}, viol: map[string]*sigAcc{}}
+}
+
+// keep accumulates violations per signature; flush reports them so that every
+// signature of the shard gets a kept example (the engine keeps the first 40
+// violations of a shard only) and the counts stay exact.
+func (r *runner) keep(v verdict) {
+	a := r.viol[v.sig]
+	if a == nil {
+		a = &sigAcc{first: v}
+		r.viol[v.sig] = a
+	}
+
+	a.n++
+}
+
+func (r *runner) flush() {
+	sigs := make([]string, 0, len(r.viol))
+	for s := range r.viol {
+		sigs = append(sigs, s)
+	}
+
+	sort.Strings(sigs)
+
+	for _, s := range sigs {
+		a := r.viol[s]
+		r.c.Violation(s, a.first.summary, a.first.cs)
+	}
+
+	for _, s := range sigs {
+		a := r.viol[s]
+		for i := int64(1); i < a.n; i++ {
+			r.c.Violation(s, a.first.summary, a.first.cs)
+		}
+	}
+
+	r.viol = map[string]*sigAcc{}
 }
 
 type runRes struct {
@@ -187,7 +232,23 @@ func layerOf(fresh, primed *runRes) (string, string) {
 		return "no-call-skipped", ""
 	}
 
+	// the call that produces the mechanism's result is the last one of the fresh
+	// evaluation: when it was skipped, the outer result was reused and skipped
+	// inner calls (token for the endpoint) are a consequence
+	if fr := fresh.roles(); skipped[len(skipped)-1] == fr[len(fr)-1] {
+		return skipped[len(skipped)-1] + "-response", skipped[len(skipped)-1]
+	}
+
 	return strings.Join(skipped, "+") + "-response", skipped[0]
+}
+
+// sigKind drops the concrete variant of a pair kind ("x(y:variant)" -> "x(y)").
+func sigKind(kind string) string {
+	if i := strings.IndexByte(kind, ':'); i > 0 && strings.HasSuffix(kind, ")") {
+		return kind[:i] + ")"
+	}
+
+	return kind
 }
 
 func firstWithRole(res *runRes, role string) *env.Recorded {
@@ -264,7 +325,7 @@ func (r *runner) evaluate(cs *Case, maxDev int) caseStats {
 
 		st.outcome = "WRONG-REUSE"
 		st.verdicts = append(st.verdicts, verdict{
-			sig: fmt.Sprintf("%s/wrong-reuse(%s)/%s/%s", cs.Family, layer, cs.Kind, diff),
+			sig: fmt.Sprintf("%s/wrong-reuse(%s)/%s/%s", cs.Family, layer, sigKind(cs.Kind), diff),
 			summary: fmt.Sprintf("%s [%s] pair=%s: B on the cache primed by A yields %s, B on an empty cache yields %s; A yielded %s; remote calls of B: primed %v, fresh %v",
 				cs.Family, cs.Conf, cs.Kind, pb.obs, fb.obs, fa.obs, pb.roles(), fb.roles()),
 			cs: cs,
@@ -282,9 +343,9 @@ func (r *runner) evaluate(cs *Case, maxDev int) caseStats {
 	case cs.Identical:
 		st.outcome = "identical-not-reused"
 	case reused && !differ:
-		st.outcome = "reused(difference-is-dont-care:same-remote-requests-and-result)"
+		st.outcome = "reused(dont-care:fresh-evaluations-of-A-and-B-are-equal)"
 	case reused:
-		st.outcome = "partly-reused(inner-layer-equivalent)"
+		st.outcome = "reused-the-part-B-shares-with-A(result-equals-fresh)"
 	case differ:
 		st.outcome = "evaluated-afresh(difference-reached-remote-or-result)"
 	default:
@@ -327,7 +388,10 @@ func (r *runner) evaluate(cs *Case, maxDev int) caseStats {
 		}
 
 		v := *cs
-		v.Script = append([]uint8{}, script...)
+		v.Script = make([]int, len(script))
+		for i, x := range script {
+			v.Script[i] = int(x)
+		}
 
 		var sig string
 
@@ -362,10 +426,15 @@ func (r *runner) evaluate(cs *Case, maxDev int) caseStats {
 	}
 
 	if cs.Script != nil {
-		res := r.run(mB, &cs.InB, cA.clone(), cs.Script)
+		script := make([]uint8, len(cs.Script))
+		for i, x := range cs.Script {
+			script[i] = uint8(x)
+		}
+
+		res := r.run(mB, &cs.InB, cA.clone(), script)
 		st.evals++
 		st.orders++
-		judge(&res, cs.Script)
+		judge(&res, script)
 
 		return st
 	}
@@ -479,7 +548,15 @@ func (r *runner) record(cs *Case, st *caseStats) {
 	}
 
 	for _, v := range st.verdicts {
-		c.Violation(v.sig, v.summary, v.cs)
+		r.keep(v)
+	}
+
+	if debug {
+		fmt.Fprintf(os.Stderr, "CASE %s [%s] %s -> %s evals=%d orders=%d\n", cs.Family, cs.Conf, cs.Kind, st.outcome, st.evals, st.orders)
+
+		for _, v := range st.verdicts {
+			fmt.Fprintf(os.Stderr, "   VERDICT %s\n      %s\n", v.sig, v.summary)
+		}
 	}
 
 	if len(st.verdicts) == 0 && st.nontrivial && !cs.Identical && strings.HasPrefix(st.outcome, "evaluated-afresh(difference") && c.WantSample() && c.Shard == 0 {
@@ -490,6 +567,7 @@ func (r *runner) record(cs *Case, st *caseStats) {
 func run(c *engine.Ctx) {
 	r := newRunner(c)
 	defer cleanupKeyStore()
+	defer r.flush()
 
 	maxDev := 1
 	if !c.Quick() {
